@@ -5668,8 +5668,7 @@ class CodegenCtx:
             output_length_expr = self._generate_buflike_length_expr(action.into_storage)
             # Check if we need to allocate
             # (a buffer with a default value is allocated in the start(), but delete may have freed it since)
-            if ProgramData.do(ProgramFlag.ALLOCATE_STR_SPACE_DYNAMIC_ON_DEMAND) and (action.into_storage.default_value is None or ProgramData.do(ProgramFlag.DELETE_STRING_FREE_MEMORY)) and self._is_dynamic(action.into_storage):
-                result.add(f"if (!state->c.{action.into_storage.name}) state->c.{action.into_storage.name} = malloc({output_length_expr});")
+            allocate_on_demand = ProgramData.do(ProgramFlag.ALLOCATE_STR_SPACE_DYNAMIC_ON_DEMAND) and (action.into_storage.default_value is None or ProgramData.do(ProgramFlag.DELETE_STRING_FREE_MEMORY)) and self._is_dynamic(action.into_storage)
             # We treat the size given in by the user as including a terminating null (if requested, anyways)
             max_length_expr = self._generate_buflike_length_expr(action.into_storage, include_null=True)
             result.add(f"if (state->{action.into_storage.name}_counter == {max_length_expr}) {{")
@@ -5688,6 +5687,9 @@ class CodegenCtx:
                 char_type = self._get_string_char_type()
                 if action.into_storage.holds_a(OutputStorageType.RAW):
                     char_type = "uint8_t"
+                if allocate_on_demand:
+                    # only once there is something to store: a buffer that is allocated but never written has no terminator
+                    body.add(f"if (!state->c.{action.into_storage.name}) state->c.{action.into_storage.name} = malloc({output_length_expr});")
                 body.add(f"{self._generate_buflike_index_expr(action.into_storage, f'state->{action.into_storage.name}_counter++')} = ({char_type})({target_expression});")
                 if action.into_storage.holds_a(OutputStorageType.STR) and action.into_storage.str_null:
                     body.add(f"{self._generate_buflike_index_expr(action.into_storage, f'state->{action.into_storage.name}_counter')} = 0;")
